@@ -31,6 +31,7 @@ type Cfg struct {
 	CommitWeight   int // weight of commit inside a write transaction (default 12 of ~100)
 	ReaderBoost    int // multiplier of reader begin/close weights
 	ReopenWeight   int // default 6
+	Faults         int // weight of arming an I/O fault (0 = never)
 }
 
 func DefaultCfg() Cfg {
@@ -215,8 +216,13 @@ func Next(t *rapid.T, e *drv.Env, cfg Cfg) drv.Op {
 		if cfg.Probes {
 			ws = append(ws, weighted{3, drv.OpProbe})
 		}
+		if cfg.Faults > 0 {
+			ws = append(ws, weighted{cfg.Faults, drv.OpArmFault})
+		}
 		k := pick(t, "txop", ws)
 		switch k {
+		case drv.OpArmFault:
+			return drv.Op{Op: k, U: uint64(rapid.IntRange(1, 12).Draw(t, "faultin"))}
 		case drv.OpBeginRO:
 			id := 1
 			for e.RO[id] != nil {
